@@ -149,6 +149,8 @@ def enumerate_cases(tier):
                         if form == "values" and not cast:
                             continue
                         yield "cast-table", {"mode": "cast", "vk": vk, "rk": rk, "val": val, "form": form, "shape": list(shape), "cast": cast}
+            # a.values = v on a 0-d array (the setter always casts)
+            yield "cast-table", {"mode": "cast", "vk": vk, "rk": rk, "val": val, "form": "values", "shape": [], "cast": True}
 
 
 # ----------------------------------------------------------------------------------------------
@@ -207,7 +209,7 @@ def _make_rhs(rhs, kept_shape):
     return rhs_values(rk, n, base).reshape(sh)
 
 
-def _same_cells(got, exp, what, sig):
+def _same_cells(got, exp, what, sig, cast=False):
     g = np.asarray(got, dtype=object)
     check(g.shape == exp.shape, "shape-after-assignment", {"what": what, "got": list(g.shape), "expected": list(exp.shape)}, sig)
     for idx in itertools.product(*[range(s) for s in exp.shape]):
@@ -215,6 +217,10 @@ def _same_cells(got, exp, what, sig):
         ok = core.same_scalar(x, y)
         if ok and isinstance(y, str):
             ok = isinstance(x, str)
+        if ok and cast:
+            # cast=True promises that no assigned value is lost: True written into an int array must read back as True, not 1
+            # (the library's widening table sends bool-into-number and number-into-bool to object for that reason)
+            ok = isinstance(core.pyscalar(x), bool) == isinstance(core.pyscalar(y), bool)
         if not ok:
             raise Violation("cell-after-assignment", {"what": what, "cell": list(idx), "got": core.jsonable(x), "expected": core.jsonable(y),
                                                       "all": core.jsonable(g)}, sig=sig)
@@ -290,7 +296,7 @@ def run_assign(case):
                 check(core.snapshot(target)["attrs"] == snap["attrs"], "attrs", {"what": what}, sig)
             else:
                 target = a
-            _same_cells(target.values, exp, what, sig)
+            _same_cells(target.values, exp, what, sig, cast=cast)
             _check_rest(target, snap, what, sig)
             # read back through the same index
             get = (lambda: target.take(idx)) if mode == "label" else (lambda: target.take(idx, indexing="position"))
@@ -336,7 +342,7 @@ def run_ndmask(case):
         else:
             lib(lambda: a.put(m, rhs, **kw), what=what, sig=sig)
             target = a
-        _same_cells(target.values, exp, what, sig)
+        _same_cells(target.values, exp, what, sig, cast=cast)
         _check_rest(target, snap, what, sig)
     cl = ["nd-mask", "rhs:" + case["rhs"]["shape"]]
     if 0 < n < mask.size:
@@ -388,7 +394,7 @@ def run_cast(case):
         def setvalues():
             a.values = new
         lib(setvalues, what=what, sig=sig)
-    _same_cells(a.values, exp, what, sig)
+    _same_cells(a.values, exp, what, sig, cast=cast)
     _check_rest(a, snap, what, sig)
     return {"classes": ["cast-table"] + (["cast:kind-changing"] if rk != vk else []), "nontrivial": True}
 
